@@ -12,7 +12,7 @@ recognised atom with the wrong sign / factor / index is a violation.
 """
 from ..model import AnalysisError
 from ..terms import T, walk_terms
-from ..walk import call_parts, call_arg, is_call_to, const_val, NOVAL, strip_views, is_conj, same_value, unwrap_gamma, norm_stmt
+from ..walk import call_parts, call_arg, is_call_to, const_val, NOVAL, strip_views, is_conj, same_value, unwrap_gamma, norm_stmt, data_derives
 from ..lin import linearise, peel, product_factors
 from .. import ein
 
@@ -66,6 +66,7 @@ class Checker:
         self.resolved = 0
         self.matched = {}      # id(alt) -> set of matched Prod ids
         self.missing = {}      # id(alt) -> [(q, label, rule)]
+        self._keep = []        # every linearised alternative stays alive: `matched` / `missing` are keyed by id() and a freed list's id is reused
 
     def graph(self, q):
         return self.A.graphs.get(self.A.prog.func(q))
@@ -75,12 +76,15 @@ class Checker:
         ret = g.ret
         if component is not None and ret.op == 'tuple':
             ret = ret.args[0][component]
-        return g, linearise(ret)
+        alts = linearise(ret)
+        self._keep.append(alts)
+        return g, alts
 
     def term(self, q, alt, label, pred, want_sign, want_factors=(), exact_coef=None, rule='R-LIN'):
         """find the atom and check its sign / coefficient / symbolic factors"""
         fn = self.A.prog.func(q)
         short = q.split('::')[1]
+        self._keep.append(alt)
         hits = find(alt, pred)
         if not hits:
             # decided by close(): a vanished term is a violation when everything that is left has been recognised
@@ -487,6 +491,33 @@ def check_bingham(ck):
                   'partial-fraction coefficients are not 1/prod(deltas, axis=-1) with the diagonal set to one', construct=f'R-LIN::{q}::partial-fractions')
     else:
         run.unresolved('R-LIN', 'ComplexBingham.norm', fn.loc(), 'normaliser form not recognised')
+    # duplicate-eigenvalue spreading: the partial fractions divide by lambda_j - lambda_i, so `norm` spreads coinciding eigenvalues first.
+    # The minimal gap is an absolute positive number: the helper is applied to the Bingham parameter eigenvalues, which are shifted so that
+    # their maximum is 0, and a gap proportional to the eigenvalues themselves (`eps * largest`) vanishes exactly there.
+    q = D + 'complex_bingham::ComplexBingham._remove_duplicate_eigenvalues'
+    fn = A.prog.func(q)
+    g = ck.graph(q)
+    floors = []
+    for e in g.events:
+        if e.kind == 'call' and is_call_to(e.term, 'numpy.maximum'):
+            a, b = call_arg(e.term, 0), call_arg(e.term, 1)
+            for x, fl in ((a, b), (b, a)):
+                if x is not None and fl is not None and any(is_call_to(y, 'numpy.diff') for y in walk_terms(x, into_mu=False)) \
+                        and not any(is_call_to(y, 'numpy.diff') for y in walk_terms(fl, into_mu=False)):
+                    floors.append((e.term, fl))
+    if not floors:
+        raise AnalysisError('ComplexBingham._remove_duplicate_eigenvalues: the floor of the consecutive differences (maximum(diff(sorted), gap)) is no longer recognised')
+    evp = [p_ for p_ in fn.params if p_ not in ('self', 'cls', 'eps')]
+    for tm, fl in floors:
+        dep = [p_ for p_ in evp if data_derives(fl, p_)]
+        ck.resolved += 1
+        run.check(not dep, 'R-DEP', 'ComplexBingham._remove_duplicate_eigenvalues: the minimal gap is an absolute number', fn.loc(tm.node), '',
+                  f'the minimal gap between spread eigenvalues depends on the eigenvalues themselves ({dep}): for the Bingham parameter eigenvalues (maximum 0 by '
+                  f'construction) a relative gap is 0, duplicates survive and the normaliser divides by zero', construct=f'R-DEP::{q}::absolute-gap')
+    if 'eps' in fn.defaults:
+        d = A.ev.default_av(fn, 'eps', A.ev.entry(fn))
+        run.check(d is not None and d.sign == 'POS', 'R-SIGN', 'ComplexBingham._remove_duplicate_eigenvalues: default gap is positive', fn.loc(), '',
+                  'the default minimal gap is not a positive number', construct=f'R-SIGN::{q}::gap-default')
 
 
 def check_cacg(ck):
